@@ -35,13 +35,18 @@ impl<C: Config> Engine<C> {
     pub(super) fn create_tfc_from_scc_hash_set(
         &self,
         query_ids: &scc::HashSet<QueryID, FxBuildHasher>,
+        ended_in_scc: Option<QueryID>,
     ) -> Interned<TransitiveFirewallCallees> {
         let mut set = FxHashSet::with_capacity_and_hasher(
-            query_ids.len(),
+            query_ids.len() + 1,
             FxBuildHasher::default(),
         );
 
         query_ids.iter_sync(|k| set.insert(*k));
+
+        if let Some(this) = ended_in_scc {
+            set.insert(this);
+        }
 
         let tfc = TransitiveFirewallCallees(set);
         self.interner.intern(tfc)
